@@ -71,6 +71,16 @@ def classify(v):
         return "C02-entry-jump-targeted"
     if (f.get("ctx_before_jump") or f.get("ctx_before_block")) and kind.startswith("reject"):
         return "C02-ctx-before-block"
+    if "'chain'" in v.get("case_id", "") and kind.startswith("behaviour-diff"):
+        import ast
+        try:
+            cid = ast.literal_eval(v["case_id"])
+            kinds, negs = cid[2], cid[3]
+            if any(negs[i] and kinds[i] in ("end", "return") and i + 1 < len(kinds) and kinds[i + 1] == "jump_after"
+                   for i in range(len(kinds))):
+                return "C02-negated-leaving-elseif-before-jump-only-elseif"
+        except Exception:
+            pass
     return None
 
 
